@@ -35,7 +35,7 @@ def check(c):
         lambda: c.model_check("RadixMC", RADIX_CFG % dict(bug="none", maxlen=maxlen, dump="TRUE", invs=INVS, uni="full"),
                               tag="RadixMC", env={"OUT_FILE": cases, "UNIVERSE_FILE": uni}, timeout=3000, workers=8),
         # the 32-pattern sub-universe, one insertion deeper (some defects need three or four interacting patterns)
-        lambda: c.model_check("RadixMC", RADIX_CFG % dict(bug="none", maxlen=maxlen + 1, dump="TRUE", invs="Refines WellFormed ElemsSubset", uni="small"),
+        lambda: c.model_check("RadixMC", RADIX_CFG % dict(bug="none", maxlen=3, dump="TRUE", invs="Refines WellFormed ElemsSubset", uni="small"),
                               tag="RadixMC_small", env={"OUT_FILE": cases2, "UNIVERSE_FILE": uni2}, timeout=3000, workers=8),
         # 48 patterns over 2 hosts x 3 schemes x ports none / 1 / 2 / *: nodes with several schemes and several explicit ports
         lambda: c.model_check("RadixMC", RADIX_CFG % dict(bug="none", maxlen=maxlen, dump="TRUE", invs="Refines WellFormed ElemsSubset", uni="ports"),
